@@ -145,6 +145,7 @@ def run(prog, run):
     r8(prog, run)
     r9(prog, run)
     r10(prog, run)
+    r11(prog, run)
 
 
 def r10(prog, run):
@@ -659,3 +660,47 @@ def r9(prog, run):
                           'did not grant resumption' % (f.display()[:50], f.fmt(expr, inline=False)[:60], fld.split('::')[-1], 'not false' if v is None else v))
     if nw < 2:
         raise AnalysisBroken('C10.R9: writes of %s not found' % fld)
+
+
+# --------------------------------------------------------------------------- R11: the resumption address is only offered while resumption is possible
+def r11(prog, run):
+    rid = run.rule('C10.R11', 'the predicate that lets connectToHost() prefer the stream-management resumption address over the configured server is false whenever the stream cannot be '
+                              'resumed (evaluated with the member canResume() reports bound to false): a location kept from an earlier, no longer resumable session must not redirect '
+                              'the next attempt', floor=1)
+    getter = prog.fn(NS + 'C2sStreamManager::canResume')
+    flag = None
+    for _, r in getter.returns():
+        if 'e' in r and getter.nodes[getter.skip(r['e'])]['k'] == 'mem':
+            flag = getter.nodes[getter.skip(r['e'])]['f']
+    if flag is None:
+        raise AnalysisBroken('C10.R11: canResume() no longer returns a member')
+    # the predicate: the bool member function of the stream manager that the connect code tests before it asks for resumeAddress()
+    cth = prog.fn(OC + '::connectToHost')
+    preds = []
+    for b in cth.blocks.values():
+        t = b.get('term')
+        if t and t.get('cond') is not None:
+            for j in cth.walk(t['cond']):
+                m = cth.nodes[j]
+                if m['k'] == 'call' and ((cth.sym(m) or {}).get('record') or '').endswith('C2sStreamManager') and (m.get('t') or '') == 'bool':
+                    preds += [g for g in prog.callee_fns(cth, m) if g.entry is not None]
+    if not preds:
+        raise AnalysisBroken('C10.R11: connectToHost() no longer tests a predicate of the stream manager before using the resumption address')
+    for g in preds:
+        run.instance(rid)
+
+        def custom(f, nid, st):
+            n = f.nodes[nid]
+            if n['k'] == 'mem' and n.get('f') == flag:
+                return (False,)
+            if n['k'] == 'call' and (f.cname(n) or '') == NS + 'C2sStreamManager::canResume':
+                return (False,)
+            return None
+        ev = cfgx.Evaluator(g, {}, custom=custom, prog=prog)
+        vals = [ev.ev(r['e']) for _, r in g.returns() if 'e' in r]
+        if vals and all(v is False for v in vals):
+            run.ok(rid, g.loc(), '%s() is false while the stream cannot be resumed' % g.name)
+        else:
+            run.violation(rid, '%s#ignores-resumability' % g.qname.split('::')[-1], g.loc(),
+                          '%s() can be true although the stream cannot be resumed (canResume false): connectToHost() then connects to a resumption address stored for an earlier '
+                          'session instead of the configured server' % g.name)
